@@ -240,6 +240,33 @@ func TestProbes(t *testing.T) {
 					t.Errorf("facts: %+v", f.Signers[0])
 				}
 			}},
+		{name: "ec-point-on-other-curve-than-declared", ks: ec, want: "any",
+			build: func(t *testing.T, w *world) ([]byte, [][]byte) {
+				// DS key lives on brainpoolP256r1 but the certificate declares prime256v1
+				k, err := GenerateKey(detRand(31337), KeySpec{Kind: "ecdsa", Curve: "brainpoolP256r1", Hash: "sha256"})
+				if err != nil {
+					t.Fatal(err)
+				}
+				spki := Seq(AlgID(OIDECPublicKey, OID(CurveByName("P-256").OID)), BitString(k.PublicKeyBits(), 0))
+				ca, ds := reissue(t, w, nil, func(c *CertSpec) { c.Key = k; c.SPKIOverride = spki })
+				return mustSOD(t, NewSODSpec(ds, w.dgs, signingTime)), [][]byte{ca.Cert}
+			}, check: func(t *testing.T, f *Facts, _ []AnchorFacts) {
+				if f.Certs[0].KeyValid || len(f.Signers[0].SigVerifiesUnder) != 0 || !eqInts(f.Certs[0].ChainsTo, ints(0)) {
+					t.Errorf("facts: %+v", f.Certs[0])
+				}
+			}},
+		{name: "ds-unknown-extension-critical-false-explicit", ks: rsa, want: "any",
+			build: func(t *testing.T, w *world) ([]byte, [][]byte) {
+				// BER (not DER): critical FALSE written out. The extension is not critical.
+				ca, ds := reissue(t, w, nil, func(c *CertSpec) {
+					c.ExtraExtensions = []Extension{{OID: "1.2.3.4.5", Value: Null(), ExplicitFalse: true}}
+				})
+				return mustSOD(t, NewSODSpec(ds, w.dgs, signingTime)), [][]byte{ca.Cert}
+			}, check: func(t *testing.T, f *Facts, _ []AnchorFacts) {
+				if f.Certs[0].UnknownCriticalExt || !eqInts(f.Certs[0].ChainsTo, ints(0)) {
+					t.Errorf("facts: %+v", f.Certs[0])
+				}
+			}},
 		{name: "validity-generalized-time-2055", ks: rsa, want: "accept",
 			build: func(t *testing.T, w *world) ([]byte, [][]byte) {
 				na := time.Date(2055, 1, 1, 0, 0, 0, 0, time.UTC)
@@ -420,6 +447,21 @@ func TestProbes(t *testing.T) {
 				s.DigestAlg = "sha1"
 				return mustSOD(t, s), genuineStore(w)
 			}, check: sigOK},
+	}
+
+	for _, sz := range []string{"224", "256", "384"} {
+		sz := sz
+		probes = append(probes, probe{name: "brainpoolP" + sz + "r1-r-between-curve-orders", want: "reject",
+			ks: KeySpec{Kind: "ecdsa", Curve: "brainpoolP" + sz + "r1", ExplicitParams: true, Hash: "sha256"},
+			build: func(t *testing.T, w *world) ([]byte, [][]byte) {
+				r := new(big.Int).Add(CurveByName("brainpoolP"+sz+"r1").N, big.NewInt(5))
+				if r.Cmp(CurveByName("P-"+sz).N) >= 0 {
+					t.Fatal("orders not as assumed")
+				}
+				s := NewSODSpec(w.ds, w.dgs, signingTime)
+				s.SD.Signers[0].SignatureOverride = Seq(Int(r), Int(big.NewInt(7)))
+				return mustSOD(t, s), genuineStore(w)
+			}})
 	}
 
 	worlds := map[string]*world{}
